@@ -1,6 +1,7 @@
 package app
 
 import (
+	"bytes"
 	"encoding/hex"
 	"fmt"
 	"math"
@@ -261,6 +262,14 @@ func (app *App) txChecker() txChecker {
 		err := serialize.GetSerializer(serialize.NETWORK).Deserialize(msg.Tx, tx)
 		if err != nil {
 			app.logger.Errorf("checkTx failed to deserialize msg: %v, error: %s ", msg, err)
+		} else if !bytes.Equal(tx.SignedBytes(), msg.Tx) {
+			// replay protection is keyed by the hash of the received bytes while signatures
+			// cover the re-serialised transaction: accept the canonical encoding only
+			app.Context.check.DiscardTxSession()
+			return ResponseCheckTx{
+				Code: CodeNotOK.uint32(),
+				Log:  "transaction is not in canonical encoding",
+			}
 		}
 		txCtx := app.Context.Action(&app.header, app.Context.check)
 		handler := txCtx.Router.Handler(tx.Type)
@@ -326,6 +335,13 @@ func (app *App) txDeliverer() txDeliverer {
 		err := serialize.GetSerializer(serialize.NETWORK).Deserialize(msg.Tx, tx)
 		if err != nil {
 			app.logger.Errorf("deliverTx failed to deserialize msg: %v, error: %s ", msg, err)
+		} else if !bytes.Equal(tx.SignedBytes(), msg.Tx) {
+			// see txChecker: another encoding of an executed transaction must not execute again
+			app.Context.deliver.DiscardTxSession()
+			return ResponseDeliverTx{
+				Code: CodeNotOK.uint32(),
+				Log:  "transaction is not in canonical encoding",
+			}
 		}
 		txCtx := app.Context.Action(&app.header, app.Context.deliver)
 
